@@ -49,6 +49,14 @@ package zenodb
 //@   at call dyn:onRow assert raw_only_if_allowed: len(callarg2) == 0 || rawOkay
 //@   at call zenodb.rowMapper assert maps_from_file_header: callarg0 == outFields && callarg1 == fileFields
 //@   at call dyn:onRow assert columns_fresh_per_row: len(callarg1) == 0 || freshInLoop(callarg1)
+//@   capture scanInstant Int = result 0 of call (*zenodb.table).truncateBefore
+//@   at call zenodb.rowMerger assert one_instant_per_scan: captured(scanInstant) && callarg3 == scanInstant && callarg2 == fs.t.Resolution
+
+// C18: the memstore side of every row of a scan is merged against the one retention cutoff the scan fixed when it
+// started (rowMerger's argument), not against a clock that ingest keeps advancing while the scan runs.
+//@ func rowMerger$1
+//@   modifies *
+//@   at call Sequence).Merge assert merges_at_the_scan_instant: callarg4 == truncateBefore && callarg3 == resolution
 
 // C02: on open, the resume offsets are the per-source maximum (Advance) of the newest readable filestore's header
 // offsets and the offset file's offsets - never the offset file alone when a filestore was selected.
@@ -144,11 +152,15 @@ package zenodb
 
 // C01/C14 (one accepted point): the WHERE test comes first - a point it rejects neither advances the clock nor reaches
 // the row store; the clock is advanced to the point's own time; every row handed to the row store carries the point's
-// timestamp, the WAL offset and source it came with and the full dims as metadata.
+// timestamp, the WAL offset and source it came with and the full dims as metadata. C02: the memory cap (which may force
+// a flush that persists this entry's WAL offset) is applied before the first row of the entry is handed over, never
+// between the rows one entry fans out into.
 //@ func (*table).doInsert
 //@   requires ts_in_range: unixNano(ts) == clamp64(unixNano(ts))
 //@   modifies *
 //@   capture tsp Slice = result 0 of call encoding.NewTSParams
+//@   capture handed Int = result 0 of call (*zenodb.rowStore).insert
+//@   at call (*zenodb.DB).capMemorySize assert memory_cap_before_first_row: !captured(handed)
 //@   at call vtime.Clock.Advance assert clock_after_where: where == nil || unboxBool(ok)
 //@   at call vtime.Clock.Advance assert clock_to_point_time: callarg1 == ts
 //@   at call encoding.NewTSParams assert ts_kept: callarg0 == ts
@@ -267,3 +279,28 @@ package zenodb
 //@   capture msCopy Int = result 0 of call (*zenodb.memstore).copy
 //@   at call (*zenodb.memstore).copy assert file_read_in_the_same_section: fs == rs.fileStore
 //@   at call sync.RWMutex).RUnlock assert memstore_copied_before_unlock: fs != nil || fs == nil ==> (includeMemStore ==> captured(msCopy))
+
+// C17: a coalesced iteration finds its own output column for a field of the union by the field's text (name and
+// expression), the same key the union was de-duplicated by - not by object identity or position: the first column with
+// that text, or -1 only if the iteration has no column with that text.
+//@ func (*iteration).indexOfOutField
+//@   modifies nothing
+//@   ensures by_field_text: result >= 0 ==> result < len(it.outFields) && it.outFields[result].String() == field.String()
+//@   ensures minus_one_only_if_absent: result < 0 ==> result == -1 && (forall j in 0..len(it.outFields) :: it.outFields[j].String() != field.String())
+//@   loop 0 modifies nothing
+//@   loop 0 invariant bounds: 0 <= $i && $i <= len(it.outFields)
+//@   loop 0 invariant none_yet: forall j in 0..$i :: it.outFields[j].String() != field.String()
+
+// C13 (follower side of a cluster query): whatever error ends the follower's scan early - deadline, memory limit, a
+// failing callback - is the error the remote query handler returns to the leader, for the flat and for the unflat form
+// of the query alike; a query that cannot be prepared returns the preparation error.
+//@ func (*DB).queryForRemote
+//@   modifies *
+//@   capture scanErr Iface = result 1 of call Source.Iterate
+//@   capture prepErr Iface = result 1 of call DB).Query
+//@   ensures scan_error_returned: captured(scanErr) && scanErr != nil ==> result1 != nil
+//@   ensures prepare_error_returned: captured(prepErr) && prepErr != nil ==> result1 != nil
+// the deferred logging closure reads the error for its log line and leaves it as it is
+//@ func (*DB).queryForRemote$1
+//@   modifies *
+//@   ensures error_left_alone: err == old(err)
